@@ -6,5 +6,5 @@ the accumulated result (C05) for every strategy, and dill persistence, are layer
 from contracts import C13
 
 CONTRACTS = list(C13.CONTRACTS)
-LEMMAS = []
+LEMMAS = list(C13.LEMMAS)
 ASSUMPTIONS = C13.ASSUMPTIONS + ["dill round-trips the object graph (external)", "equality of the final refinement structure with an uninterrupted run: layer B only"]
